@@ -13,6 +13,7 @@ static GLOBAL: Counting = Counting;
 
 fn main() {
     let args = Args::from_env();
+    vharness::common::install_discarding_logger();
     if args.flag("c06-child") {
         c06::child_main(
             args.num("seed", 1),
